@@ -293,11 +293,151 @@ def normalise_bool_assign(ft, ads):
         ads.append({"rule": "D11", "what": f"{n} bool compound assignment(s) `&=`/`|=` rewritten with a temporary and `&&`/`||`"})
 
 
+
+def split_or_guard_arms(ft, ads):
+    """D12: a match arm that has both an or-pattern and a guard (`P1 | P2 if g => e`, also with the `|`
+    nested inside the pattern) is not supported by Verus; it is split into one arm per alternative, in
+    order, each with the same guard and body: `P1 if g => e, P2 if g => e` — the desugaring given by the
+    Rust reference for or-patterns with guards."""
+    n = 0
+    guard = 0
+    while guard < 50:
+        guard += 1
+        sig = ft.sig
+        done = True
+        for mi, t in enumerate(sig):
+            if not (t.kind == "ident" and t.text == "match"):
+                continue
+            # find the match body `{`
+            k = mi + 1
+            while k < len(sig) and sig[k].text != "{":
+                if sig[k].text in "([":
+                    k = match_close(sig, k)
+                k += 1
+            if k >= len(sig):
+                continue
+            close = match_close(sig, k)
+            a = k + 1
+            while a < close:
+                # pattern: a .. arrow
+                j = a
+                if_at = None
+                while j < close and not (sig[j].text == "=" and sig[j + 1].text == ">" and sig[j + 1].s == sig[j].e):
+                    if sig[j].text in OPEN:
+                        j = match_close(sig, j)
+                    elif sig[j].kind == "ident" and sig[j].text == "if" and if_at is None:
+                        if_at = j
+                    j += 1
+                if j >= close:
+                    break
+                arrow = j
+                # body: arrow+2 .. end
+                b = arrow + 2
+                if sig[b].text == "{":
+                    e = match_close(sig, b)
+                    end_tok = e
+                    nxt = e + 1
+                    if nxt < close and sig[nxt].text == ",":
+                        end_tok = nxt
+                        nxt += 1
+                else:
+                    e = b
+                    while e < close and sig[e].text != ",":
+                        if sig[e].text in OPEN:
+                            e = match_close(sig, e)
+                        e += 1
+                    end_tok = e if e < close else close - 1
+                    nxt = e + 1 if e < close else close
+                if if_at is not None:
+                    # look for a `|` in the pattern (a .. if_at), at any depth; closures cannot occur in patterns
+                    bars = [x for x in range(a, if_at) if sig[x].text == "|" and not (x == a)]
+                    if bars:
+                        # innermost group containing the first bar
+                        bar = bars[0]
+                        # find enclosing delimiter of `bar` within the pattern
+                        depth = 0
+                        lo = a
+                        for x in range(bar - 1, a - 1, -1):
+                            if sig[x].text in CLOSE:
+                                depth += 1
+                            elif sig[x].text in OPEN:
+                                if depth == 0:
+                                    lo = x + 1
+                                    break
+                                depth -= 1
+                        hi = if_at
+                        if lo > a:
+                            hi = match_close(sig, lo - 1)
+                        # the alternation may be one field of a struct pattern: restrict to the comma-separated segment
+                        seg_lo, seg_hi = lo, hi
+                        x = lo
+                        cur = lo
+                        while x < hi:
+                            if sig[x].text in OPEN:
+                                x = match_close(sig, x)
+                            elif sig[x].text == ",":
+                                if cur <= bar < x:
+                                    seg_lo, seg_hi = cur, x
+                                    break
+                                cur = x + 1
+                            x += 1
+                        else:
+                            seg_lo, seg_hi = cur, hi
+                        # field pattern `name: ALT | ALT`: alternatives start after the `:` at depth 0
+                        alt_lo = seg_lo
+                        x = seg_lo
+                        while x < seg_hi:
+                            if sig[x].text in OPEN:
+                                x = match_close(sig, x)
+                            elif sig[x].text == ":" and sig[x + 1].text != ":" and sig[x - 1].text != ":":
+                                alt_lo = x + 1
+                                break
+                            x += 1
+                        # split alternatives at depth-0 bars
+                        alts = []
+                        cur = alt_lo
+                        x = alt_lo
+                        while x < seg_hi:
+                            if sig[x].text in OPEN:
+                                x = match_close(sig, x)
+                            elif sig[x].text == "|":
+                                alts.append((cur, x))
+                                cur = x + 1
+                            x += 1
+                        alts.append((cur, seg_hi))
+                        if len(alts) >= 2 and all(u < v for u, v in alts):
+                            arm_s, arm_e = sig[a].s, sig[end_tok].e
+                            pre = ft.text[arm_s:sig[alt_lo].s]
+                            post = ft.text[sig[seg_hi - 1].e:arm_e]
+                            body_has_comma = sig[end_tok].text == ","
+                            pieces = []
+                            for (u, v) in alts:
+                                alt = ft.text[sig[u].s:sig[v - 1].e]
+                                arm = pre + alt + post
+                                if not body_has_comma and not arm.rstrip().endswith("}"):
+                                    arm = arm + ","
+                                pieces.append(arm)
+                            ft.edits.append((arm_s, arm_e - arm_s, "\n".join(pieces)))
+                            ft.apply_edits()
+                            ft.relex()
+                            n += 1
+                            done = False
+                            break
+                a = nxt
+            if not done:
+                break
+        if done:
+            break
+    if n:
+        ads.append({"rule": "D12", "what": f"{n} match arm(s) with or-pattern and guard split into one arm per alternative"})
+
+
 def adapt_function(text, where, subs, report):
     ft = FnText(text, where)
     ft.relex()
     ads = report["adaptations"]
     normalise_bool_assign(ft, ads)
+    split_or_guard_arms(ft, ads)
 
     # D8: APIT -> named type parameter
     for sd in subs:
@@ -499,12 +639,18 @@ def adapt_function(text, where, subs, report):
                     raise ExtractError("template", f"{where}: loop {n} is not a for loop")
                 m = idx[n - 1] + 1
                 while not (sig[m].kind == "ident" and sig[m].text == "in"):
-                    if sig[m].text in "([":
+                    if sig[m].text in OPEN:
                         m = match_close(sig, m)
                     m += 1
                 ft.edits.append((sig[m].e, 0, f" {la[2]}:"))
                 ads.append({"rule": "D3", "what": f"loop {n}: ghost iterator named `{la[2]}`"})
             k = idx[n - 1] + 1
+            if sig[idx[n - 1]].text == "for":
+                # skip the pattern (which may contain braces) up to `in`
+                while not (sig[k].kind == "ident" and sig[k].text == "in"):
+                    if sig[k].text in OPEN:
+                        k = match_close(sig, k)
+                    k += 1
             while True:
                 t = sig[k]
                 if t.text in "([":
